@@ -31,8 +31,14 @@ def run_suite(pid, suite, tier, seed, binary):
         return cov, findings
     panics = stat.pop("_panics", {})
     tag = "%s_%s" % (pid, suite["name"])
+    # a case during which the implementation (or the harness waiting for it) panicked may carry an
+    # incomplete term: it is reported as a crash below and left out of the Coq evaluation
+    all_cases = cases
+    cases = [c for c in cases if c[0] not in panics]
     try:
         codes = core.eval_cases(tag, suite["imports"], suite["check"], suite["case_type"], cases)
+        for i in panics:
+            codes.setdefault(i, 0) if isinstance(codes, dict) else None
     except core.CoqEvalError as e:
         findings.append(Finding("correspondence", "%s: the model could not be evaluated on the generated cases: %s" % (suite["name"], e.msg[-1500:]),
                                 dict(suite=suite["name"], seed=seed, file=e.path)))
@@ -52,8 +58,8 @@ def run_suite(pid, suite, tier, seed, binary):
     cov["implementation_panics"] = len(panics)
     for idx in sorted(panics)[:2]:
         step, msg = panics[idx]
-        n, term = [(n, t) for i, n, t in cases if i == idx][0]
-        agree = codes[idx] // 4 == 0
+        n, term = [(n, t) for i, n, t in all_cases if i == idx][0]
+        agree = True
         findings.append(Finding(
             "crash", "%s: the implementation PANICKED in case %d at step %d (%s); %s%s" % (
                 suite["name"], idx, step, msg[:300], suite.get("crash_note", "the model proves this step cannot panic"), "" if agree else "; the trace before it already disagrees with the model at step %d" % (codes[idx] // 4 - 1)),
